@@ -49,14 +49,22 @@ RULE = ('one case = one coefficient set (class: dense / sparse single term at ea
         'fast path; class I - EVERY pattern of empty / length-1 / length-5 coefficient lists over m = 0 .. 4 (243 layouts) through compute_z_zprime_Q2d, every ordering of the (n, m) list of '
         'Q2d_nm_c_to_a_b; class J - modes / design columns NON-FINITE AT EXACTLY THE MASKED SAMPLES (NaN, +inf, -inf, mixed; all columns / one column / a strict subset of the masked samples; '
         'outside an aperture, isolated samples, rows, columns, a single sample, the first samples, all but k + 2 samples), aperture-limited zernike / 2D-Q bases with data synthesised from them '
-        'through sum_of_2d_modes, a column with a pole at the one dropped sample, 1-D samples, masks all-valid / single-valid-sample / all-masked: the fit must be the fit on the valid samples only')
+        'through sum_of_2d_modes, a column with a pole at the one dropped sample, 1-D samples, masks all-valid / single-valid-sample / all-masked: the fit must be the fit on the valid samples only. '
+        'Hardening pass 4: class M - the documented work / output array alphas= of jacobi_sum_clenshaw (three parameter pairs), jacobi_sum_clenshaw_der, clenshaw_qbfs, clenshaw_qbfs_der, '
+        'clenshaw_q2d (m = 1, 2, 3), clenshaw_q2d_der in the states all-zero / NaN-filled / +inf-filled / garbage / huge garbage / RE-USED for three further sums with new coefficients / the '
+        'leading slice of a longer array the same routine filled, x lengths 1, 2, 3, 4, 6, 9 x coordinates 1-D / 2-D / 0-d: the returned sum and the sum the documentation locates in the array '
+        'against the explicit sum (domain table WORK_DOMAIN), the derivative planes against the alphas=None call where they are in domain; ragged coefficient sets of compute_z_zprime_Q2d '
+        '(a shorter vector after a longer one across m and between the cosine and sine lists of one m, the reverse, mixed; lengths 0 .. 11), each evaluated twice')
 ASSUMPTIONS = ['the single-mode routines (jacobi, Qbfs, Qcon, Q2d, zernike_nm) define the modes (their values are C07)',
                'float64 accumulation of <= 40 terms is exact to 1e-13 relative to sum |c_k| sup|mode_k|',
                'numpy.linalg (qr, solve, matrix_rank, cond) is the trusted base for the least-squares oracle',
                'tolerance 1e-10 * sum|c_k| sup|mode_k| for sums, times (terms/20)^2 beyond 20 terms (measured round-off of the 2-D Q '
                'recurrences: 1e-13 at 41 terms, 5e-12 at 150); float32 data / coefficients or config.precision = 32: 1e-3 (sums of <= 12 '
                'terms, observed 1e-6), 2e-4 for sum_of_2d_modes and lstsq; 1e-8 * cond * |c| for fits',
-               'caller-provided work arrays (alphas=) are zero-initialised with the documented shape, as _initialize_alphas makes them',
+               'caller-provided work arrays (alphas=) have the documented shape; their CONTENT on entry is arbitrary for the routines that assign every row they read (jacobi_sum_clenshaw, '
+               'clenshaw_qbfs, clenshaw_q2d, and plane 0 - the sum - of the derivative routines): "array to store the alpha sums in, alphas[0] contains the sum"; the derivative planes of '
+               'clenshaw_qbfs_der / clenshaw_q2d_der read rows they never assign and are judged only for an all-zero buffer or one the same routine filled before with the same shapes; '
+               'jacobi_sum_clenshaw_der ignores the array it is given (DATA established on /repo @ 66c5405, table WORK_DOMAIN)',
                'a coefficient vector may be any sequence of real numbers (list, tuple, ndarray of a floating or integer dtype, numpy scalars)',
                'argument forms (class E): the accepted forms are DATA established on /repo @ faa8443: integer mode stacks in sum_of_2d_modes (weights are cast to the mode dtype), complex weights '
                'with real modes, generators as weights / mode stacks, list data in lstsq, integer ndarray coordinates of the Clenshaw routines and evaluators, python int coordinates of the Q '
@@ -71,7 +79,8 @@ REQUIRED = ['alias.arguments-intact', 'alias.result-stable', 'sum_of_2d_modes', 
             'Q2d_nm_c_to_a_b->compute_z_zprime_Q2d', 'lstsq.solution', 'lstsq.recovers-synthesis',
             'lstsq.ignores-exactly-nonfinite', 'pvr.consumer',
             'classA.array-arguments-reused', 'classD.very-high-orders', 'classE.argument-forms', 'classF.foreign-traffic',
-            'classG.scale-laws', 'classH.special-parameters', 'classH.special-points', 'classI.orderings', 'classI.layouts', 'classJ.validity-patterns']
+            'classG.scale-laws', 'classH.special-parameters', 'classH.special-points', 'classI.orderings', 'classI.layouts', 'classJ.validity-patterns',
+            'classM.work-arrays', 'classM.ragged-coefficient-sets']
 
 CTX = None
 RTOL = 1e-10
@@ -1067,6 +1076,154 @@ def kwarg_units(ctx):
                     compare('compute_z_zprime_Q2d.sag', S * u ** m, ref, scale, f'C10/clenshaw_q2d/alphas=/{lenclass(L)}', 'clenshaw_q2d(alphas=work) != explicit sum', desc)
 
 
+# Hardening pass 4, class M: the documented optional work array `alphas=` in hostile states.  DATA established on /repo @ 66c5405 (every state x lengths 1, 2, 3, 4, 7 x
+# coordinates 1-D / 2-D / 0-d, result compared bit for bit with the alphas=None call):
+#   'all'       the routine assigns every row it later reads (jacobi_sum_clenshaw, clenshaw_qbfs, clenshaw_q2d): ANY content on entry is in domain
+#   'sum-plane' the derivative routines (clenshaw_qbfs_der, clenshaw_q2d_der) hand plane 0 to the routine above (any content in domain for the SUM, which is all this
+#               property states) but read derivative rows they never assign: the derivative planes are in domain only for an all-zero buffer and for a buffer that the
+#               SAME routine filled before with the same shapes (the unassigned rows are still zero) - a dirty buffer or a leading slice of a longer one is excluded and counted
+#   'ignored'   jacobi_sum_clenshaw_der does not use the array it is given at all today (allocates its own): every state is in domain for the RETURNED array, the
+#               work array is not required to be filled
+WORK_DOMAIN = {'jacobi_sum_clenshaw': 'all', 'clenshaw_qbfs': 'all', 'clenshaw_q2d': 'all', 'clenshaw_qbfs_der': 'sum-plane', 'clenshaw_q2d_der': 'sum-plane',
+               'jacobi_sum_clenshaw_der': 'ignored'}
+WORK_STATE_CLASS = {'zeros': 'zeros', 'nan': 'dirty', 'inf': 'dirty', 'garbage': 'dirty', 'huge': 'dirty', 'reused': 'reused', 'reused-slice-of-longer': 'reused'}
+
+
+def work_routines():
+    """label -> (fn, call(c, u, work) -> raw result, j (derivative planes), surface(raw or work, L, u) -> the sum the documentation locates in the array, mode(k, u))."""
+    from prysm.polynomials import jacobi, Qbfs, Q2d, jacobi_sum_clenshaw, jacobi_sum_clenshaw_der
+    from prysm.polynomials.qpoly import clenshaw_qbfs, clenshaw_qbfs_der, clenshaw_q2d, clenshaw_q2d_der
+    out = {}
+
+    def qb(al, L, u):     # clenshaw_qbfs docstring: the surface is u^2 (1 - u^2) * 2 * (alphas[0] + alphas[1])
+        x = u * u
+        return (x * (1 - x)) * (2 * (al[0] + al[1]) if L > 1 else 2 * al[0])
+
+    def q2(m):            # clenshaw_q2d docstring: sum(cn Qn) = .5 alphas[0] - 2/5 alphas[3] if m = 1 and N > 2, .5 alphas[0] otherwise (times u^m)
+        def surf(al, L, u):
+            S = 0.5 * al[0]
+            if m == 1 and L > 3:
+                S = S - 2 / 5 * al[3]
+            return S * u ** m
+        return surf
+    for (a, b) in ((0.25, -0.25), (0, 4), (-0.25, -0.75)):
+        out[f'jacobi_sum_clenshaw({a},{b})'] = ('jacobi_sum_clenshaw', lambda c, u, w, a=a, b=b: jacobi_sum_clenshaw(c, a, b, 2 * u - 1, alphas=w), 0,
+                                                 (lambda raw, L, u: raw), (lambda al, L, u: al[0]), lambda k, u, a=a, b=b: jacobi(k, a, b, 2 * u - 1))
+    for (a, b, j) in ((0, 4, 1), (0.25, -0.25, 2)):
+        out[f'jacobi_sum_clenshaw_der({a},{b},j={j})'] = ('jacobi_sum_clenshaw_der', lambda c, u, w, a=a, b=b, j=j: jacobi_sum_clenshaw_der(c, a, b, 2 * u - 1, j=j, alphas=w), j,
+                                                            (lambda raw, L, u: raw[0][0]), None, lambda k, u, a=a, b=b: jacobi(k, a, b, 2 * u - 1))
+    out['clenshaw_qbfs'] = ('clenshaw_qbfs', lambda c, u, w: clenshaw_qbfs(c, u * u, alphas=w), 0, (lambda raw, L, u: raw), qb, lambda k, u: Qbfs(k, u))
+    for j in (1, 2):
+        out[f'clenshaw_qbfs_der(j={j})'] = ('clenshaw_qbfs_der', lambda c, u, w, j=j: clenshaw_qbfs_der(c, u * u, j=j, alphas=w), j,
+                                            (lambda raw, L, u: qb(raw[0], L, u)), (lambda al, L, u: qb(al[0], L, u)), lambda k, u: Qbfs(k, u))
+    for m in (1, 2, 3):
+        out[f'clenshaw_q2d(m={m})'] = ('clenshaw_q2d', lambda c, u, w, m=m: clenshaw_q2d(c, m, u * u, alphas=w), 0, q2(m), q2(m), lambda k, u, m=m: Q2d(k, m, u, np.zeros(np.shape(u))))
+    for (m, j) in ((1, 1), (2, 2), (4, 1)):
+        out[f'clenshaw_q2d_der(m={m},j={j})'] = ('clenshaw_q2d_der', lambda c, u, w, m=m, j=j: clenshaw_q2d_der(c, m, u * u, j=j, alphas=w), j,
+                                                  (lambda raw, L, u, m=m: q2(m)(raw[0], L, u)), (lambda al, L, u, m=m: q2(m)(al[0], L, u)), lambda k, u, m=m: Q2d(k, m, u, np.zeros(np.shape(u))))
+    return out
+
+
+def work_array_units(ctx, part, nparts):
+    """Class M: every Clenshaw routine that documents a work / output array `alphas=` is called with that array all-zero, NaN-filled, +inf-filled, filled with garbage
+    (what np.empty or a buffer last used by something else holds), with huge garbage, RE-USED for three further evaluations with new coefficients, and as the leading slice
+    of a longer array the same routine has filled.  The returned sum AND the sum the documentation locates in the array (alphas[0], ...) must equal the explicit sum of
+    coefficient times mode in every state that is in domain (WORK_DOMAIN); for the derivative routines the whole returned array must equal the alphas=None call in the states
+    where the derivative planes are in domain."""
+    R = work_routines()
+    rng0 = case_rng('work-arrays')
+    us = (('1d', np.array([0.0, 0.21875, 0.53125, 0.84375, 1.0])), ('2d', np.asarray(0.02 + 0.96 * rng0.random((2, 3)))), ('0d', np.asarray(0.40625)))
+    for ri, (label, (fn, call, j, from_raw, from_work, mode)) in enumerate(R.items()):
+        if ri % nparts != part:
+            continue
+        dom = WORK_DOMAIN[fn]
+        for ucls, u in us:
+            for L in (1, 2, 3, 4, 6, 9):
+                rng = case_rng('work-arrays', label, ucls, L)
+                shape = ((j + 1,) if j else ()) + (L,) + u.shape
+                longer = ((j + 1,) if j else ()) + (L + 3,) + u.shape
+
+                def buffers():
+                    yield 'zeros', np.zeros(shape)
+                    yield 'nan', np.full(shape, np.nan)
+                    yield 'inf', np.full(shape, np.inf)
+                    yield 'garbage', rng.normal(size=shape) * 1e3
+                    yield 'huge', np.where(rng.random(shape) < 0.5, 1e300, -1e-300)
+                    w = np.zeros(shape)
+                    yield 'zeros', w
+                    for _ in range(3):
+                        yield 'reused', w
+                    big = np.zeros(longer)
+                    with quiet(), np.errstate(all='ignore'):
+                        call([float(v) for v in rng.normal(size=L + 3)], u, big)
+                    yield 'reused-slice-of-longer', (big[:, :L] if j else big[:L])
+                for state, work in buffers():
+                    sc = WORK_STATE_CLASS[state]
+                    c0 = [float(v) for v in rng.normal(size=L)]
+                    desc = {'fn': fn, 'path': label, 'len': L, 'x': ucls, 'arg': 'alphas', 'state': state, 'class': f'{fn}:arg:alphas={state}:{ucls}'}
+                    ctx.case(desc)
+                    ctx.observe('classM.work-arrays')
+                    key = f'C10/{fn}/arg:alphas={sc}'
+                    with guard(fn, desc, lenclass(L), [lenclass(L), 'list-len1'] if L == 1 else [lenclass(L)]):
+                        with np.errstate(all='ignore'):
+                            raw = call(c0 if L % 2 else np.array(c0), u, work)
+                            got = from_raw(raw, L, u)
+                            held = None if (from_work is None or dom == 'ignored') else from_work(work, L, u)
+                        with quiet():
+                            ref, scale = explicit_sum(c0, lambda k: mode(k, u))
+                            clean = call(c0, u, None) if j else None
+                        mon = {'jacobi_sum_clenshaw': 'jacobi_sum_clenshaw', 'clenshaw_qbfs': 'clenshaw_qbfs'}.get(fn, 'classM.work-arrays')
+                        compare(mon, got, ref, scale, key + '/returned-sum', f'{fn}(alphas=<work array, {state} on entry>): the returned sum != explicit sum of coefficient * mode', desc)
+                        if held is not None:
+                            compare('classM.work-arrays', held, ref, scale, key + '/sum-in-work-array',
+                                    f'{fn}(alphas=<work array, {state} on entry>): the sum the documentation locates in the work array != explicit sum of coefficient * mode', desc)
+                        if j:
+                            if dom == 'ignored' or sc == 'zeros' or state == 'reused':
+                                compare('classM.work-arrays', raw, clean, max(sup(clean), 1e-300), key + '/derivative-planes',
+                                        f'{fn}(alphas=<work array, {state} on entry>) != {fn}(alphas=None) (all planes)', desc)
+                            else:
+                                ctx.skip(f'{fn}:derivative-planes-with-dirty-work-array(out of domain: rows read but never assigned)')
+
+
+def ragged_units(ctx):
+    """Class M / I: ragged multi-vector coefficient sets for compute_z_zprime_Q2d - a SHORTER vector after a LONGER one (across azimuthal orders, and the sine list after the
+    cosine list of the same order), the reverse, and mixed; lengths 0 .. 11 so that both sides of the m = 1, N > 2 branch occur on both sides of a length step.  A work array
+    shared between the sweeps must not leak rows of the longer sweep into the shorter one.  Sag against the explicit sum of c * Q2d(n, m)."""
+    from prysm.polynomials import Q2d
+    from prysm.polynomials.qpoly import compute_z_zprime_Q2d
+    rng = case_rng('ragged')
+    u = np.array([0.0, 0.21875, 0.53125, 0.84375, 1.0])
+    t = np.array([0.5, 1.75, 3.0, 5.5, 0.0])
+    sets = [(0, [7, 3], [7, 3]), (3, [6, 4, 2], [2, 4, 6]), (0, [3, 7], [7, 3]), (10, [9, 1, 5, 2], [0, 8, 0, 3]), (0, [5], [2]), (0, [2], [5]), (2, [8, 4], [4, 8]), (1, [4, 3], [3, 2]),
+            (0, [11, 4], [4, 1]), (4, [4, 4, 4], [4, 4, 4]), (0, [6, 0, 3], [0, 6, 2]), (0, [4, 2], [3, 4])]
+    for _ in range(ctx.pick(6, 80)):
+        k = int(rng.integers(1, 5))
+        sets.append((int(rng.integers(0, 6)), [int(v) for v in rng.integers(0, 10, size=k)], [int(v) for v in rng.integers(0, 10, size=k)]))
+    for n0, la, lb in sets:
+        seq = [v for pair in zip(la, lb) for v in pair if v]        # order in which the routine sweeps the vectors
+        down = any(q < p for p, q in zip(seq, seq[1:]))
+        up = any(q > p for p, q in zip(seq, seq[1:]))
+        rl = 'mixed' if (down and up) else 'shorter-after-longer' if down else 'longer-after-shorter' if up else 'equal'
+        cm0 = [float(v) for v in rng.normal(size=n0)]
+        ams = [[float(v) for v in rng.normal(size=n)] for n in la]
+        bms = [[float(v) for v in rng.normal(size=n)] for n in lb]
+        desc = {'fn': 'compute_z_zprime_Q2d', 'lens': [n0, la, lb], 'ragged': rl, 'class': f'compute_z_zprime_Q2d:ragged:{rl}'}
+        ctx.case(desc, nontrivial=bool(seq or n0))
+        ctx.observe('classM.ragged-coefficient-sets')
+        with guard('compute_z_zprime_Q2d', desc, f'ragged:{rl}'):
+            for rep in range(2):
+                z = compute_z_zprime_Q2d(list(cm0), [np.array(a) if rep else list(a) for a in ams], [list(b) for b in bms], u, t)[0]
+                with quiet():
+                    tot, scale = np.zeros(u.shape), 0.0
+                    terms = [(n, 0, c) for n, c in enumerate(cm0)] + [(n, m + 1, c) for m, a in enumerate(ams) for n, c in enumerate(a)] + [(n, -(m + 1), c) for m, b in enumerate(bms) for n, c in enumerate(b)]
+                    for n, m, c in terms:
+                        md = np.asarray(Q2d(n, m, u, t), dtype=float)
+                        tot = tot + c * md
+                        scale += abs(c) * sup(md)
+                compare('compute_z_zprime_Q2d.sag', z, tot, max(scale, 1e-300), f'C10/compute_z_zprime_Q2d/ragged:{rl}',
+                        'compute_z_zprime_Q2d sag != explicit sum of c * Q2d(n, m) for coefficient vectors of unequal lengths', desc)
+
+
 def high_units(ctx, lens):
     """Class D: sums far longer than any plausible internal table."""
     rng = case_rng('high')
@@ -1858,6 +2015,14 @@ def run_hardening(ctx, counter):
     for part in range(lp):
         if mine():
             coef_layout_units(ctx, part, lp)
+    # hardening pass 4: class M (work arrays in hostile states, ragged coefficient sets)
+    wp = ctx.pick(2, 4)
+    for part in range(wp):
+        if mine():
+            work_array_units(ctx, part, wp)
+            check_kept()
+    if mine():
+        ragged_units(ctx)
     check_kept()
 
 
